@@ -105,7 +105,8 @@ func runC02(r *Run) {
 			}
 			c := evalCase{expr: e, d: d, tag: "bexpr"}
 			if !c.parse() {
-				r.Count("generator:unparseable")
+				// every literal of this stream is in a spelling the grammar admits (also the ill-typed ones): the text must parse
+				r.Violate("literal-does-not-parse", kind+"|"+spellClass(lit), map[string]interface{}{"expression": e, "kind": kind, "literal": lit}, "grammar.Parse rejects the expression")
 				return
 			}
 			o := c.obs()
@@ -295,7 +296,7 @@ func runC02(r *Run) {
 			}
 		}
 		// strings
-		for _, x := range []string{"", "a", "foo", "x y", "é", "日本", "a\"b", "b\\c", "/usr/bin", "1", "true", "a\nb", "\x00", "\xff", "/a~1b", "/x~0y", "/a/b", "/~1"} {
+		for _, x := range []string{"", "a", "foo", "x y", "é", "日本", "a\"b", "b\\c", "/usr/bin", "1", "true", "a\nb", "\x00", "\xff", "/a~1b", "/x~0y", "/a/b", "/~1", "v1.2", "eth0.100", "a.b", "null", "nil", "/tmp/a\tb", "/srv\\share", " pad ", "C:\\tmp\\"} {
 			for _, y := range []string{x, x + "a", "A" + x} {
 				for _, sp := range literalStyles(y) {
 					for _, w := range append(wrap("string", x), struct {
@@ -983,6 +984,11 @@ func runC07(r *Run) {
 			}
 			if rng.Pct(15) {
 				parts[1] = strings.ToUpper(parts[1]) // case must matter
+			}
+			if rng.Pct(12) {
+				// a map that holds both a nested path and a key spelled like the joined rest of another path: parts are matched one by one
+				d = map[string]interface{}{"labels": map[string]interface{}{"tier": map[string]interface{}{"x": 1}, "tier.name": "a", "a.b.c": 1, "a": map[string]interface{}{"b": map[string]interface{}{"d": 1}}, "zone/name": 1, "0.1": 1, "l": []interface{}{1}}, "l": []interface{}{1}}
+				parts = pick(rng, [][]string{{"labels", "tier", "name"}, {"labels", "a", "b", "c"}, {"labels", "zone", "name"}, {"labels", "a", "b"}, {"labels", "0", "1"}, {"labels", "tier", "x"}, {"labels", "l", "0"}})
 			}
 		} else {
 			d = genDatum()
